@@ -72,7 +72,13 @@ def run(replay=None):
             stats["vertices"] += int(f["verts"])
             ratio = float(f["maxfield"])
             stats["max_field_ratio"][name] = max(stats["max_field_ratio"][name], ratio)
-            if int(f["wind_bad"]):
+            if int(f["wind_bad"]) and alg == 0 and ratio > 1.0:
+                # a dual-contouring vertex more than one feature size off the surface (the recorded finding: its
+                # QEF solve is unbounded) drags the surface across probes 1.5 feature sizes away
+                ck.violation("offsurface:dc", f"a dual-contouring vertex {ratio:.3g} feature sizes from the zero level set "
+                             "puts a probe on the wrong side of the mesh",
+                             {"program": p.text(), "command": p.lines[cmd - 1], "detail": out[0]})
+            elif int(f["wind_bad"]):
                 ck.violation(f"winding:{name}" + (":vol" if vol else ""),
                              "the mesh does not separate inside from outside like the expression (winding number) at a point far from the surface",
                              {"program": p.text(), "command": p.lines[cmd - 1], "detail": out[0]})
